@@ -124,6 +124,18 @@ func fieldAccesses(fn *ssa.Function) []fieldAccess {
 			}
 		case ssa.CallInstruction:
 			cc := x.Common()
+			// the address of a field handed to a callee (zero.Bytea64(&a.hash), rand.Read(a.salt[:])):
+			// the callee may write through it
+			for _, a := range cc.Args {
+				if fa, ok := a.(*ssa.FieldAddr); ok {
+					if isSyncType(fa.Type()) {
+						continue
+					}
+					if t, f, b, ok := fieldOfAddr(fa); ok {
+						add(in, t, f, b, "addrarg", true)
+					}
+				}
+			}
 			if bi, ok := cc.Value.(*ssa.Builtin); ok {
 				switch bi.Name() {
 				case "delete":
@@ -150,6 +162,17 @@ func isFreshObject(base ssa.Value) bool {
 	case *ssa.UnOp:
 		// load of a local cell holding a fresh object is not attempted
 		_ = b
+	}
+	return false
+}
+
+func isSyncType(t types.Type) bool {
+	if p, ok := t.Underlying().(*types.Pointer); ok {
+		t = p.Elem()
+	}
+	if n, ok := t.(*types.Named); ok && n.Obj().Pkg() != nil {
+		p := n.Obj().Pkg().Path()
+		return p == "sync" || p == "sync/atomic"
 	}
 	return false
 }
